@@ -18,6 +18,10 @@ use std::sync::Arc;
 
 pub type XmdSha256 = ExpandMsgXmd<sha2::Sha256>;
 pub type XmdSha512 = ExpandMsgXmd<sha2::Sha512>;
+pub type XmdSha224 = ExpandMsgXmd<sha2::Sha224>;
+pub type XmdSha384 = ExpandMsgXmd<sha2::Sha384>;
+pub type XmdSha512t224 = ExpandMsgXmd<sha2::Sha512Trunc224>;
+pub type XmdSha512t256 = ExpandMsgXmd<sha2::Sha512Trunc256>;
 pub type XofShake128 = ExpandMsgXof<sha3::Shake128>;
 pub type XofShake256 = ExpandMsgXof<sha3::Shake256>;
 
